@@ -666,13 +666,13 @@ def _mutants(m):
         return False
     out.append(("size-check: disabled", p, size_check_off, True))
 
-    def guard_or(node):
+    def guard_wrong_flag(node):
         for n in ast.walk(node):
-            if isinstance(n, ast.If) and isinstance(n.test, ast.BoolOp) and isinstance(n.test.op, ast.And):
-                n.test.op = ast.Or()
+            if isinstance(n, ast.Attribute) and n.attr == "is_signed_v31":
+                n.attr = "is_signed_v3"
                 return True
         return False
-    out.append(("selection: v3 guard 'and' -> 'or'", v3, guard_or, True))
+    out.append(("selection: v3.1 request guarded by the v3 flag", v3, guard_wrong_flag, True))
 
     def swap_lists(node):
         for n in ast.walk(node):
